@@ -284,6 +284,8 @@ PROPERTIES["C08"] = {
     + [MH("c08_build_" + n, inputs="files of %s symbolic content bytes" % (n.replace("_", "/") if n != "empty" else "no"), timeout=900,
           bounds="PackageBuilder .. build() (MIR): header digest in the signature header, payload digest, alternate payload digest, per-file digests vs SHA-256 (uninterpreted) of the bytes they name")
        for n in ("empty", "1", "0_3", "2_1_4")]
+    + [MH("c08_build_dup_2_3", inputs="two add_data calls of 2 and 3 symbolic bytes under the same destination", timeout=900, bounds="as c08_build_*; each recorded file digest names the bytes the archive carries for that file"),
+       MH("c08_build_symlink_2_1", inputs="a regular file of 2 and a symbolic-link entry with a 1-byte source, contents symbolic", timeout=900, bounds="as c08_build_dup_2_3")]
     + [MH("c08_build_%s_2_1" % c, inputs="two files of 2 and 1 symbolic bytes, %s compression with a symbolic level" % c, timeout=900,
           bounds="as c08_build_*, the compressor an uninterpreted function of level and input: payload digest over the compressed bytes, alternate digest over the archive", covers_unsat_ok=["package built"])
        for c in ("gzip", "xz", "bzip2", "zstd")]
@@ -467,6 +469,8 @@ PROPERTIES["C06"] = {
     "harnesses": [MH("c06_required", inputs="name, version, licence, architecture, summary: 1 symbolic character each; epoch any u32", bounds="constructor arguments read back by their accessors", timeout=600)]
     + [MH("c06_str_" + f, inputs="the five required strings and %s: 1 symbolic character each; epoch any u32" % f, bounds="builder.%s(x) read back by get_%s()" % (f, f), timeout=600) for f in _C06_STR]
     + [MH("c06_all_strings", inputs="all fourteen string fields, 1 symbolic character each", bounds="all string setters together", timeout=900),
+       MH("c06_scriptlets_prog1", inputs="eight scriptlets with a one-word interpreter", bounds="scriptlet setters vs scriptlet accessors", timeout=900),
+       MH("c06_scriptlets_prog3", inputs="two scriptlets with a three-word interpreter", bounds="scriptlet setters vs scriptlet accessors", timeout=900),
        MH("c06_scriptlets_prog", inputs="eight scriptlets: text 2 symbolic characters, flags any u32, interpreter of two 1-character words", bounds="scriptlet setters vs scriptlet accessors", timeout=900),
        MH("c06_scriptlets_plain", inputs="eight scriptlets: text 2 symbolic characters, flags any u32, no interpreter", bounds="scriptlet setters vs scriptlet accessors", timeout=900),
        MH("c06_fileopts_flags", inputs="every ordered pair of the FileOptions flag methods", bounds="flags = union of both methods' flags", timeout=300),
